@@ -86,8 +86,11 @@ class Check:
                      'rule %s analysed %d %s, fewer than the %d confirmed when it was armed (vacuous pass refused)'
                      % (rule, count, name, minimum), count=count, minimum=minimum)
 
-    def anchor(self, rule, qname, facts=None):
-        f = (facts or self.facts).fn(qname)
+    def anchor(self, rule, qname, facts=None, plain=False):
+        fx = (facts or self.facts)
+        f = fx.fn(qname)
+        if f is not None and not plain and hasattr(fx, 'normalised'):
+            f = fx.normalised(f)
         if f is None:
             self.bad(rule, 'anchor-missing:%s' % qname,
                      'anchored function %s not found in the analysed build (renamed or removed); rule cannot be decided'
